@@ -184,15 +184,24 @@ impl MetadataInvertedIndex {
 pub struct HnswVectorIndex { _p: core::marker::PhantomData<()> }
 impl HnswVectorIndex {
     #[verifier::external_body] fn distance_metric(&self) -> DistanceMetric { unimplemented!() }
-    #[verifier::external_body] fn is_full(&self) -> bool { unimplemented!() }
+    // ghost: would the index refuse a new element for lack of space
+    pub uninterp spec fn full_spec(&self) -> bool;
+    #[verifier::external_body] fn is_full(&self) -> (r: bool) ensures r == self.full_spec() { unimplemented!() }
     #[verifier::external_body] fn len(&self) -> usize { unimplemented!() }
     #[verifier::external_body] fn capacity(&self) -> usize { unimplemented!() }
-    #[verifier::external_body] fn add_vector(&mut self, id: u64, e: &[f32]) -> Result<()> { unimplemented!() }
+    // C03 / C15 call-site obligation: everything the index can reject must have been rejected BEFORE the call (and hence before
+    // the log append that precedes it): the index is not full and the vector passed the pre-flight (normalisation Ok).  That the
+    // pre-flight accepts only what add_vector accepts is the Kani unit `preflight`.
+    #[verifier::external_body] fn add_vector(&mut self, id: u64, e: &[f32]) -> Result<()>
+        requires !old(self).full_spec(), preflight_ok(e@),
+    { unimplemented!() }
     #[verifier::external_body] fn complete_sequential_inserts(&mut self) { unimplemented!() }
 }
+// capability: this exact vector passed the engine's pre-flight (granted only by normalize_in_place_if_needed Ok)
+pub uninterp spec fn preflight_ok(v: Seq<f32>) -> bool;
 #[verifier::external_body]
 fn normalize_in_place_if_needed(distance: DistanceMetric, embedding: &mut Vec<f32>) -> (r: Result<()>)
-    ensures final(embedding)@.len() == old(embedding)@.len()
+    ensures final(embedding)@.len() == old(embedding)@.len(), r.is_ok() ==> preflight_ok(final(embedding)@)
 { unimplemented!() }
 
 //@item engine/src/hnsw_backend.rs struct HnswBackend
